@@ -10,6 +10,7 @@ import (
 	"github.com/bronlabs/bron-crypto/pkg/base/curves/k256"
 	"github.com/bronlabs/bron-crypto/pkg/base/curves/p256"
 	"github.com/bronlabs/bron-crypto/pkg/base/curves/pairable/bls12381"
+	"github.com/bronlabs/bron-crypto/pkg/base/curves/pasta"
 	"github.com/bronlabs/bron-crypto/pkg/encryption/elgamal"
 )
 
@@ -112,10 +113,11 @@ func c16EGCurve[E elgamal.FiniteCyclicGroupElement[E, S], S algebra.UintLike[S]]
 		c.Emit(fmt.Sprintf("eg-key %s %s", e.name, aHex), "ok:"+e.ptStr(sk.H()))
 		c.Count("eg.key." + e.name)
 		ops := func(path string) egOps[E, S] {
+			var inner egOps[E, S] = pk
 			if path == "sk" {
-				return sk
+				inner = sk
 			}
-			return pk
+			return &egImmut[E, S]{c: c, e: e, path: path, inner: inner} // input-immutability oracle
 		}
 		fresh := func(path string) *egTriple[E, S] {
 			pt, err := elgamal.NewPlaintext[E, S](e.randPoint(r))
@@ -147,10 +149,29 @@ func c16EGCurve[E elgamal.FiniteCyclicGroupElement[E, S], S algebra.UintLike[S]]
 			c.Emit(fmt.Sprintf("eg-dec %s %s %s %s", e.name, aHex, e.ptStr(cs[0]), e.ptStr(cs[1])), res)
 			c.Count("eg.dec." + e.name)
 		}
-		// encryption with given nonce through both paths
+		// encryption with given nonce through both paths: first the forced edge grid
+		// {identity, generator, (n-1)G} x {0, 1, n-1}, then random draws
+		nm1 := new(big.Int).Sub(e.order, big.NewInt(1))
+		type egCase struct {
+			M  E
+			rr *big.Int
+		}
+		var cases []egCase
+		if ki == 0 {
+			gen := e.group.Generator()
+			for _, M := range []E{e.group.OpIdentity(), gen, gen.ScalarOp(e.scOf(nm1))} {
+				for _, rr := range []*big.Int{big.NewInt(0), big.NewInt(1), nm1} {
+					cases = append(cases, egCase{M, rr})
+					c.Count("eg.edge." + e.name)
+				}
+			}
+		}
 		for i := 0; i < 4+chains; i++ {
-			M := e.randPoint(r)
-			rr := e.randScalar(r)
+			cases = append(cases, egCase{e.randPoint(r), e.randScalar(r)})
+		}
+		for _, cs := range cases {
+			M := cs.M
+			rr := cs.rr
 			var outs [2]string
 			for j, path := range []string{"pk", "sk"} {
 				var ctOut *elgamal.Ciphertext[E, S]
@@ -275,6 +296,74 @@ func c16EGCurve[E elgamal.FiniteCyclicGroupElement[E, S], S algebra.UintLike[S]]
 				emitDec(t.ct, t.pt.Value())
 			}
 		}
+		// aggregation over one batch: variadic operations on sub-slices xs[lo:hi] (hi < len <= cap)
+		// of the same arrays, prefix / sliding window / total, results re-used; the line carries
+		// the values recorded at creation
+		if ki == 0 {
+			batch := 5
+			for _, path := range []string{"sk", "pk"} {
+				o := ops(path)
+				pts := make([]*elgamal.Plaintext[E, S], batch, batch+2)
+				ncs := make([]*elgamal.Nonce[S], batch, batch+2)
+				cts := make([]*elgamal.Ciphertext[E, S], batch, batch+2)
+				type rec struct{ m, r, c1, c2 string }
+				recs := make([]rec, batch)
+				for i := 0; i < batch; i++ {
+					t := fresh([]string{"pk", "sk"}[i%2])
+					pts[i], ncs[i], cts[i] = t.pt, t.nc, t.ct
+					cs := t.ct.Value().Components()
+					recs[i] = rec{e.ptStr(t.pt.Value()), hexNat(e.scBig(t.nc.Value())), e.ptStr(cs[0]), e.ptStr(cs[1])}
+				}
+				emit := func(kind string, a, b, lo, hi int) *egTriple[E, S] {
+					out := &egTriple[E, S]{}
+					res := safely(func() string {
+						var err error
+						if out.ct, err = o.CiphertextOp(cts[a], cts[b], cts[lo:hi]...); err != nil {
+							return c16Err(err)
+						}
+						if out.pt, err = o.PlaintextOp(pts[a], pts[b], pts[lo:hi]...); err != nil {
+							return c16Err(err)
+						}
+						if out.nc, err = o.NonceOp(ncs[a], ncs[b], ncs[lo:hi]...); err != nil {
+							return c16Err(err)
+						}
+						return "ok:" + e.ctStr(out.ct) + "," + e.ptStr(out.pt.Value()) + "," + hexNat(e.scBig(out.nc.Value()))
+					})
+					idx := []int{b}
+					for i := lo; i < hi; i++ {
+						idx = append(idx, i)
+					}
+					ms, rs, c1s, c2s := make([]string, len(idx)), make([]string, len(idx)), make([]string, len(idx)), make([]string, len(idx))
+					for j, i := range idx {
+						ms[j], rs[j], c1s[j], c2s[j] = recs[i].m, recs[i].r, recs[i].c1, recs[i].c2
+					}
+					lhs := fmt.Sprintf("eg-hom %s %s %s op %s %s %s %s %s %s %s %s", path, e.name, aHex, recs[a].m, recs[a].r, recs[a].c1, recs[a].c2,
+						strings.Join(ms, ","), strings.Join(rs, ","), strings.Join(c1s, ","), strings.Join(c2s, ","))
+					c.Emit(lhs, res)
+					c.Count("eg.agg." + kind + "." + e.name)
+					if !strings.HasPrefix(res, "ok:") {
+						c.Violation(fmt.Sprintf("ElGamal aggregation failed on valid inputs: curve=%s path=%s %s => %s", e.name, path, kind, res))
+						return nil
+					}
+					emitDec(out.ct, out.pt.Value())
+					return out
+				}
+				for i := 2; i <= batch; i++ {
+					emit("prefix", 0, 1, 2, i)
+				}
+				for j := 0; j+3 <= batch; j++ {
+					emit("window", j, j+1, j+2, j+3)
+				}
+				emit("suffix", batch-1, batch-2, 1, batch-2)
+				emit("total", 0, 1, 2, batch)
+				for i := 0; i < batch; i++ {
+					cs := cts[i].Value().Components()
+					if e.ptStr(pts[i].Value()) != recs[i].m || hexNat(e.scBig(ncs[i].Value())) != recs[i].r || e.ptStr(cs[0]) != recs[i].c1 || e.ptStr(cs[1]) != recs[i].c2 {
+						c.Violation(fmt.Sprintf("input-mutated ElGamal batch element %d differs from its record after the aggregation sequence curve=%s path=%s", i, e.name, path))
+					}
+				}
+			}
+		}
 	}
 }
 
@@ -304,13 +393,38 @@ func c16ElGamal(c *Ctx) {
 		scBig: func(s *bls12381.Scalar) *big.Int { return new(big.Int).SetBytes(s.BytesBE()) },
 	}
 	c16EGCurve(c, bE, keys, chains, steps, 3)
+	// the remaining supported groups: fewer / shorter chains in the quick tier
+	chains2, steps2 := 1, 5
 	if c.Thorough() {
-		pE := &egEnv[*p256.Point, *p256.Scalar]{
-			name: "p256", group: cP256, order: fieldOrder(fP256),
-			ptStr: func(p *p256.Point) string { return pointStr(p) },
-			scOf:  func(v *big.Int) *p256.Scalar { return scalarFromBig(fP256, v) },
-			scBig: func(s *p256.Scalar) *big.Int { return new(big.Int).SetBytes(s.BytesBE()) },
-		}
-		c16EGCurve(c, pE, keys, chains, steps, 4)
+		chains2, steps2 = chains, steps
 	}
+	pE := &egEnv[*p256.Point, *p256.Scalar]{
+		name: "p256", group: cP256, order: fieldOrder(fP256),
+		ptStr: func(p *p256.Point) string { return pointStr(p) },
+		scOf:  func(v *big.Int) *p256.Scalar { return scalarFromBig(fP256, v) },
+		scBig: func(s *p256.Scalar) *big.Int { return new(big.Int).SetBytes(s.BytesBE()) },
+	}
+	c16EGCurve(c, pE, keys, chains2, steps2, 4)
+	paE := &egEnv[*pasta.PallasPoint, *pasta.PallasScalar]{
+		name: "pallas", group: cPallas, order: fieldOrder(fPallas),
+		ptStr: func(p *pasta.PallasPoint) string { return pointStr(p) },
+		scOf:  func(v *big.Int) *pasta.PallasScalar { return scalarFromBig(fPallas, v) },
+		scBig: func(s *pasta.PallasScalar) *big.Int { return new(big.Int).SetBytes(s.BytesBE()) },
+	}
+	c16EGCurve(c, paE, keys, chains2, steps2, 5)
+	fVesta := pasta.NewVestaScalarField()
+	vE := &egEnv[*pasta.VestaPoint, *pasta.VestaScalar]{
+		name: "vesta", group: cVesta, order: fieldOrder(fVesta),
+		ptStr: func(p *pasta.VestaPoint) string { return pointStr(p) },
+		scOf:  func(v *big.Int) *pasta.VestaScalar { return scalarFromBig(fVesta, v) },
+		scBig: func(s *pasta.VestaScalar) *big.Int { return new(big.Int).SetBytes(s.BytesBE()) },
+	}
+	c16EGCurve(c, vE, keys, chains2, steps2, 6)
+	g2E := &egEnv[*bls12381.PointG2, *bls12381.Scalar]{
+		name: "bls12381g2", group: cBLSG2, order: fieldOrder(fBLS),
+		ptStr: func(p *bls12381.PointG2) string { return pointStr(p) },
+		scOf:  func(v *big.Int) *bls12381.Scalar { return scalarFromBig(fBLS, v) },
+		scBig: func(s *bls12381.Scalar) *big.Int { return new(big.Int).SetBytes(s.BytesBE()) },
+	}
+	c16EGCurve(c, g2E, keys, chains2, steps2, 7)
 }
